@@ -238,7 +238,7 @@ func (f *Font) makeTemplateData(opt *WriterOptions) *fontInfo {
 		BlueValues:         f.Private.BlueValues,
 		CharStrings:        f.encodeCharstrings(),
 		Copyright:          f.FontInfo.Copyright,
-		CreationDate:       f.CreationDate,
+		CreationDate:       f.CreationDate.UTC(),
 		Encoding:           f.Encoding,
 		FamilyName:         f.FontInfo.FamilyName,
 		FontMatrix:         fontMatrix,
